@@ -7,7 +7,7 @@ Function and the flat-parameter bridge are executed on Gaussian-integer data and
 Sylvester rule of the PSD square root is compared with the exact rational model value (tolerance 1e-11 relative).
 Probe: central finite differences and a pure-autograd re-implementation on the real torch objects.
 """
-import itertools, math
+import itertools, math, struct
 from fractions import Fraction
 import numpy as np
 from . import common
@@ -27,6 +27,22 @@ TRUSTED = ['Lean 4.33 kernel', 'axioms: propext, Classical.choice, Quot.sound', 
 
 
 INT_INDEX_KEY = 'apply_gate_grad-int-index'
+
+
+MUTATION_KEY = 'backward-mutates-input'
+
+
+def check_unmutated(ctx, fn, replay, triples):
+    """a hand-written backward rule must not write into the arrays it is given (autograd hands it zero-copy views of tensors that
+    other consumers of the graph also read): `triples` = (name, array that was passed, pristine copy)"""
+    for name, passed, pristine in triples:
+        a = passed.detach().numpy() if hasattr(passed, 'detach') else np.asarray(passed)
+        b = pristine.detach().numpy() if hasattr(pristine, 'detach') else np.asarray(pristine)
+        if a.shape != b.shape or not np.array_equal(a, b, equal_nan=True):
+            ctx.fail(MUTATION_KEY + ':' + fn, f'{fn} wrote into its input `{name}` (in-place modification of a buffer owned by the caller / by autograd)',
+                     dict(replay, op=fn, mutated=name))
+            return False
+    return True
 
 
 def guarded(f):
@@ -50,6 +66,10 @@ def gl(a):
             return 'nonintegral'
         out.append(f'{int(r)},{int(i)}')
     return ';'.join(out)
+
+
+def bits(x):
+    return struct.unpack('<Q', struct.pack('<d', float(x)))[0]
 
 
 def il(a):
@@ -89,8 +109,11 @@ def gate_ops(ctx, rng, add):
         qc = rg(rng, 2 ** n, 3); g = rg(rng, 2 ** n, 3)
         idx = t if len(t) > 1 or rep % 3 else t[0]          # bare int index path
 
-        def f():
-            a, b, c = st.apply_gate_grad(qc.copy(), g.copy(), U, idx)
+        def f(qc=qc, g=g, U=U, idx=idx, n=n, t=t):
+            qc_in, g_in, U_in = qc.copy(), g.copy(), U.copy()
+            a, b, c = st.apply_gate_grad(qc_in, g_in, U_in, idx)
+            check_unmutated(ctx, 'apply_gate_grad', dict(n=n, index=t, U=gl(U), q0_conj=gl(qc), q0_grad=gl(g)),
+                            [('q0_conj', qc_in, qc), ('q0_grad', g_in, g), ('op', U_in, U)])
             return f'{gl(a)}|{gl(b)}|{gl(c)}'
         add(f'C04 gg {n} {il(t)} {gl(U)} {gl(qc)} {gl(g)}', f,
             finding=(INT_INDEX_KEY, f'apply_gate_grad(q0_conj, q0_grad, op, index={idx!r}) raises for a bare int index although apply_gate accepts it',
@@ -112,8 +135,11 @@ def gate_ops(ctx, rng, add):
             Uc = rand_mat(rng, 2 ** kk, unitary)
             cset = set(c) if rep % 2 else (c[0] if len(c) == 1 else tuple(c))
 
-            def fc():
-                a, b, cc = st.apply_control_n_gate_grad(qc.copy(), g.copy(), Uc, cset, tuple(tt) if len(tt) > 1 else tt[0])
+            def fc(qc=qc, g=g, Uc=Uc, cset=cset, tt=tt, c=c, n=n):
+                qc_in, g_in, U_in = qc.copy(), g.copy(), Uc.copy()
+                a, b, cc = st.apply_control_n_gate_grad(qc_in, g_in, U_in, cset, tuple(tt) if len(tt) > 1 else tt[0])
+                check_unmutated(ctx, 'apply_control_n_gate_grad', dict(n=n, controls=c, index=tt, U=gl(Uc), q0_conj=gl(qc), q0_grad=gl(g)),
+                                [('q0_conj', qc_in, qc), ('q0_grad', g_in, g), ('op', U_in, Uc)])
                 return f'{gl(a)}|{gl(b)}|{gl(cc)}'
             add(f'C04 cg {n} {il(c)} {il(tt)} {gl(Uc)} {gl(qc)} {gl(g)}', fc)
             ctx.count(f'ctrl-n{n}-c{nc}-k{kk}')
@@ -348,6 +374,137 @@ def sylv_tie(ctx, rng):
                            'a handful of roundings of magnitude 1e-16 each; worst observed recorded as sylvester_worst_rel_err)')
 
 
+def handoff_ops(ctx, rng, add):
+    """hf_model_wrapper / minimize: the vector handed to the optimiser is the concatenation of the .grad's of the trainable
+    parameters in sorted-name order, float64; frozen parameters are skipped by get/set/grad alike.  Toy models with integer data
+    (polynomial loss with integer coefficients: every gradient is an exact integer)."""
+    import numqi, torch, scipy.optimize
+    pool = ['w', 'alpha', 'zeta', 'sub.m', 'sub.k', 'b0', 'Beta', '_h', 'theta']
+    for rep in range(6 if ctx.quick() else 60):
+        names = [str(x) for x in rng.choice(pool, size=int(rng.integers(2, 6)), replace=False)]
+        shapes = [tuple(int(x) for x in rng.integers(1, 3, size=int(rng.integers(1, 3)))) for _ in names]
+        frozen = [bool(rng.integers(4) == 0) for _ in names]
+        if all(frozen):
+            frozen[0] = False
+        init = [rng.integers(-4, 5, size=sh) for sh in shapes]
+        coef = [rng.integers(-3, 4, size=sh) for sh in shapes]
+        total = sum(int(np.prod(sh)) for sh, fz in zip(shapes, frozen) if not fz)
+        theta = rng.integers(-5, 6, size=total)
+        use_minimize = bool(rep % 2)
+
+        def f():
+            mod = torch.nn.Module()
+            for nm, sh, fz, v0 in zip(names, shapes, frozen, init):
+                parts = nm.split('.'); cur = mod
+                for p_ in parts[:-1]:
+                    if not hasattr(cur, p_):
+                        cur.add_module(p_, torch.nn.Module())
+                    cur = getattr(cur, p_)
+                cur.register_parameter(parts[-1], torch.nn.Parameter(torch.tensor(v0, dtype=torch.float64), requires_grad=not fz))
+            named = dict(mod.named_parameters())
+            first = named[names[[i for i, fz in enumerate(frozen) if not fz][0]]]
+
+            def forward():
+                # integer polynomial; the first trainable parameter is used twice (shared), frozen ones enter the value only
+                out = sum((torch.tensor(c, dtype=torch.float64) * named[nm] * named[nm]).sum() + (2.0 * named[nm]).sum() for nm, c in zip(names, coef))
+                return out + (first * first * first).sum() + first.sum()
+            mod.forward = forward
+            if use_minimize:
+                cap = {}
+
+                class Res:
+                    pass
+
+                def fake_minimize(fun, x0, callback=None, **kw):
+                    cap['x0'] = np.array(x0); cap['kw'] = kw
+                    cap['out'] = fun(theta.astype(np.float64))
+                    r = Res(); r.x = theta.astype(np.float64); r.fun = cap['out'][0]
+                    return r
+                orig = scipy.optimize.minimize
+                scipy.optimize.minimize = fake_minimize
+                try:
+                    numqi.optimize.minimize(mod, theta0='uniform', num_repeat=1, print_every_round=0, seed=1)
+                finally:
+                    scipy.optimize.minimize = orig
+                fval, grad = cap['out']
+                if cap['kw'].get('jac') is not True or cap['x0'].shape != (total,) or cap['x0'].dtype != np.float64:
+                    return 'optimiser-called-with-wrong-x0-or-jac'
+            else:
+                fval, grad = numqi.optimize.hf_model_wrapper(mod)(theta.astype(np.float64))
+            if not isinstance(grad, np.ndarray) or grad.dtype != np.float64 or grad.ndim != 1:
+                return f'grad-not-float64-vector:{getattr(grad, "dtype", type(grad))}'
+            back = numqi.optimize.get_model_flat_parameter(mod)
+            gflat = numqi.optimize.get_model_flat_grad(mod)
+            if not np.array_equal(gflat, grad):
+                return 'get_model_flat_grad-differs-from-the-vector-handed-to-the-optimiser'
+            cur = dict(mod.named_parameters())
+            vals = '|'.join(f'{nm}={il(cur[nm].detach().numpy().reshape(-1))}' for nm in names)
+            grads = '|'.join(f'{nm}={il(cur[nm].grad.numpy().reshape(-1))}' for nm, fz in zip(names, frozen) if not fz)
+            return vals + ' ' + il(grad) + ' ' + il(back), grads
+        r = guarded(f)
+        shapes_txt = '|'.join(f'{nm}:{int(not fz)}:{int(np.prod(sh))}' for nm, sh, fz in zip(names, shapes, frozen))
+        init_txt = '|'.join(f'{nm}={il(v.reshape(-1))}' for nm, v in zip(names, init))
+        if isinstance(r, str):
+            add(f'C04 handoff {shapes_txt} {init_txt} {il(theta)} -', lambda r=r: r)
+        else:
+            add(f'C04 handoff {shapes_txt} {init_txt} {il(theta)} {r[1]}', lambda r=r: r[0])
+        ctx.count('handoff-minimize' if use_minimize else 'handoff-wrapper')
+
+
+def logm_inner_tie(ctx, rng):
+    """the only hand-written part of PSDMatrixLogm is the repeated-sqrtm op: record what its backward receives and returns while the
+    real PSDMatrixLogm is differentiated, and compare with the exact rational value of the model on the recorded (binary64) data"""
+    import numqi, torch
+    TO = numqi._torch_op
+    fb = lambda z: f'{bits(complex(z).real)},{bits(complex(z).imag)}'
+    ops, vals = [], []
+    for rep in range(4 if ctx.quick() else 24):
+        d = int(rng.integers(1, 4)); ns = int(rng.integers(1, 4))
+        Bm = rng.normal(size=(d, d)) + 1j * rng.normal(size=(d, d))
+        A0 = Bm @ Bm.conj().T + 0.5 * np.eye(d)
+        rec = []
+        orig = TO._torch_psd_sqrtm_backward_repeat
+
+        def recorder(grad_output, ctx_tensor, repeat=1):
+            out = orig(grad_output, ctx_tensor, repeat=repeat)
+            rec.append((grad_output.detach().clone().numpy(), [t.detach().clone().numpy() for t in ctx_tensor], int(repeat), out.detach().clone().numpy()))
+            return out
+        TO._torch_psd_sqrtm_backward_repeat = recorder
+        try:
+            X = torch.tensor(A0, requires_grad=True)
+            Y = TO.PSDMatrixLogm(ns, 4)(X)
+            C = torch.tensor(rng.normal(size=(d, d)) + 1j * rng.normal(size=(d, d)))
+            (C * Y).real.sum().backward()
+        except Exception as e:
+            ctx.disagree(f'C04 sylvf {d} {ns} logm', '', 'error:' + type(e).__name__); continue
+        finally:
+            TO._torch_psd_sqrtm_backward_repeat = orig
+        if len(rec) != 1 or rec[0][2] != ns:
+            ctx.disagree(f'C04 sylvf {d} {ns} logm', 'one call of the repeated-sqrtm backward with repeat=num_sqrtm', f'{len(rec)} calls, repeat={[r[2] for r in rec]}'); continue
+        G, (sv, V), r, out = rec[0]
+        ops.append(f'C04 sylvf {d} {r} {";".join(fb(x) for x in sv.reshape(-1))} {";".join(fb(x) for x in V.reshape(-1))} {";".join(fb(x) for x in G.reshape(-1))}')
+        vals.append(out.reshape(d, d))
+    if not ops:
+        return
+    model = common.run_model(ops)
+    worst = 0.0
+    for op, got, mo in zip(ops, vals, model):
+        ctx.count('logm-inner-sqrtm-backward')
+        if mo in ('nan', 'bad-op'):
+            ctx.disagree(op[:120], mo, 'finite'); continue
+        exact = np.array([complex(float(Fraction(a)), float(Fraction(b))) for a, b in (e.split(',') for e in mo.split(';'))]).reshape(got.shape)
+        err = float(np.max(np.abs(got - exact))) / max(1.0, float(np.max(np.abs(exact))))
+        worst = max(worst, err)
+        if err <= 1e-10:
+            ctx.agree(op, op)
+        else:
+            ctx.disagree(op[:160], mo[:160], f'max rel diff {err:.3e}')
+    ctx.extra['logm_inner_worst_rel_err'] = worst
+    ctx.assumptions.append('PSDMatrixLogm: hand-written = _PSDMatrixSqrtmRepeat (eigh forward, Sylvester backward); autograd = the Gauss-Legendre/Pade part '
+                           '(torch.linalg.solve, sums). The hand-written backward is recorded inside a real logm backward and compared with the exact rational model '
+                           'value on the recorded binary64 inputs, tolerance 1e-10 relative (up to 3 passes of 3x3 products with a computed eigenbasis)')
+
+
 def correspondence(ctx):
     rng = np.random.default_rng(ctx.np_seed)
     ops, impl, posts, findings = [], [], [], []
@@ -358,6 +515,7 @@ def correspondence(ctx):
     sweep_ops(ctx, rng, add)
     kl_ops(ctx, rng, add)
     flat_ops(ctx, rng, add)
+    handoff_ops(ctx, rng, add)
     model = common.run_model(ops)
     model = [p(m) if (p is not None and '|' in m) else m for p, m in zip(posts, model)]
     # a crash of the implementation on an input the model accepts, for which a stable finding key is registered, goes through the
@@ -379,6 +537,7 @@ def correspondence(ctx):
         return True
     common.compare(ctx, ops, impl, model, nontrivial=nontrivial)
     sylv_tie(ctx, rng)
+    logm_inner_tie(ctx, rng)
     ctx.extra['exhaustive'] = False
 
 
@@ -444,6 +603,201 @@ def reimplement(circ, wrapper, q0, placeholder_params):
     return psi
 
 
+def circuit_ending_in(r2, n, kind):
+    """random prefix (no placeholders) followed by a prescribed last gate"""
+    import numqi
+    circ, _ = random_circuit(r2, n, int(r2.integers(1, 6)), with_placeholder=False)
+    q = [int(x) for x in r2.permutation(n)]
+    ang = lambda m: tuple(float(x) for x in r2.uniform(0, 2 * np.pi, size=m))
+    if kind == 'cnot':
+        circ.cnot(q[0], q[1])
+    elif kind == 'cz':
+        circ.cz(q[0], q[1])
+    elif kind == 'crx':
+        circ.crx(q[0], q[1], ang(1))
+    elif kind == 'cu3':
+        circ.cu3(q[0], q[1], ang(3))
+    elif kind == 'toffoli':
+        circ.toffoli((q[0], q[1]), q[2])
+    elif kind == 'ccustom':
+        circ.controlled_single_qubit_gate(numqi.random.rand_haar_unitary(2, seed=int(r2.integers(1 << 30))), {q[0]}, q[1])
+    elif kind == 'rx':
+        circ.rx(q[0], ang(1))
+    elif kind == 'u3':
+        circ.u3(q[0], ang(3))
+    elif kind == 'rzz':
+        circ.rzz((q[1], q[0]), ang(1))
+    elif kind == 'fixed':
+        circ.single_qubit_gate(numqi.random.rand_haar_unitary(2, seed=int(r2.integers(1 << 30))), q[0])
+    # a trainable first gate on the last qubit: every branch has the full register and something to differentiate
+    circ.gate_index_list.insert(0, (numqi.sim.Circuit(default_requires_grad=True).ry(0, ang(1)), (n - 1,)))
+    return circ
+
+
+LAST_KINDS = ['cnot', 'cz', 'crx', 'cu3', 'toffoli', 'ccustom', 'rx', 'u3', 'rzz', 'fixed']
+GRAPHS = ['add2', 'sub2', 'mul2', 'add3', 'twice', 'add-then-twice']
+
+
+def probe_graphs(ctx, rng, worst):
+    """CircuitTorchWrapper outputs combined in one autograd graph: the gradient tensor autograd hands to one backward is shared with the
+    other consumers, so a rule that un-applies a gate in place on `grad_output` corrupts the branch that is swept later"""
+    import numqi, torch
+    todo = [(k, g) for k in LAST_KINDS for g in GRAPHS]
+    if ctx.quick():
+        # every last-gate kind with two graph shapes each (rotating), every graph shape at least once
+        todo = [(k, GRAPHS[(i + j) % len(GRAPHS)]) for i, k in enumerate(LAST_KINDS) for j in (0, 3)]
+    for kind, graph in todo:
+        seed = int(rng.integers(1 << 30)); r2 = np.random.default_rng(seed)
+        n = 3
+        nb = 3 if graph == 'add3' else (1 if graph == 'twice' else 2)
+        info = dict(op='CircuitTorchWrapper-graph', graph=graph, last_gate=kind, seed=seed, num_qubit=n)
+        try:
+            circs = [circuit_ending_in(r2, n, kind) for _ in range(nb)]
+            wraps = [numqi.sim.CircuitTorchWrapper(c) for c in circs]
+            n = max(c.num_qubit for c in circs)
+            if any(c.num_qubit != n for c in circs):
+                continue
+            a = torch.tensor(r2.normal(size=2 ** n) + 1j * r2.normal(size=2 ** n))
+            b = torch.tensor(r2.normal(size=2 ** n) + 1j * r2.normal(size=2 ** n))
+            q0np = r2.normal(size=2 ** n) + 1j * r2.normal(size=2 ** n); q0np /= np.linalg.norm(q0np)
+            plist = [w.theta[k] for w in wraps for k in sorted(w.theta.keys())]
+            sizes = [p.numel() for p in plist]
+            snaps = []
+
+            def combine(psis):
+                if graph == 'add2':
+                    out = psis[0] + psis[1]
+                elif graph == 'sub2':
+                    out = psis[0] - 0.7 * psis[1]
+                elif graph == 'mul2':
+                    out = psis[0] * psis[1]
+                elif graph == 'add3':
+                    out = psis[0] + psis[1] * psis[2]
+                elif graph == 'twice':
+                    out = psis[0] * psis[0].conj() + 0.5 * psis[0]
+                else:
+                    t = psis[0] + psis[1]
+                    out = t * t.conj() + psis[1]
+                v = torch.vdot(a, out)
+                return (v * v.conj()).real + torch.vdot(b, out).real + 0.3 * torch.vdot(b, out).imag
+
+            def run(kindf, hook=False):
+                q0 = torch.tensor(q0np)
+                psis = []
+                for c, w in zip(circs, wraps):
+                    psi = w(q0) if kindf == 'custom' else reimplement(c, w, q0, None)
+                    if hook and psi.requires_grad:
+                        psi.register_hook(lambda g: snaps.append((g, g.clone())))
+                    psis.append(psi)
+                return combine(psis)
+
+            def set_flat(x):
+                off = 0
+                with torch.no_grad():
+                    for p, sz in zip(plist, sizes):
+                        p.copy_(torch.tensor(x[off:off + sz]).reshape(p.shape)); off += sz
+            x0 = np.concatenate([p.detach().numpy().reshape(-1) for p in plist])
+            grads = {}
+            for kindf in ('custom', 'autograd'):
+                for p in plist:
+                    p.grad = None
+                run(kindf, hook=(kindf == 'custom')).backward()
+                grads[kindf] = np.concatenate([(p.grad if p.grad is not None else torch.zeros_like(p)).numpy().reshape(-1) for p in plist])
+            aliased = [i for i, (g, c) in enumerate(snaps) if not torch.equal(g, c)]
+            fd = fd_grad(lambda x: (set_flat(x), float(run('custom').detach()))[1], x0)
+            set_flat(x0)
+            e_ag, e_fd = rel_err(grads['custom'], grads['autograd']), rel_err(grads['custom'], fd)
+            worst['graph_autograd'] = max(worst.get('graph_autograd', 0.0), e_ag); worst['graph_fd'] = max(worst.get('graph_fd', 0.0), e_fd)
+        except Exception as e:
+            ctx.fail('graph-grad-raises', f'{type(e).__name__}: {e} (graph {graph}, last gate {kind})', info); continue
+        info = dict(info, gates=[[(g.name, str(ix)) for g, ix in c.gate_index_list] for c in circs], theta=x0.tolist())
+        if aliased:
+            ctx.fail(MUTATION_KEY + ':_CircuitFunction.backward', f'_CircuitFunction.backward modified the grad_output tensor handed to it by autograd '
+                     f'(graph {graph}, circuits ending in {kind}; branch #{aliased[0]})', dict(info, grad=grads['custom'].tolist(), autograd=grads['autograd'].tolist()))
+        elif e_ag > 1e-9:
+            ctx.fail('graph-grad-vs-autograd', f'gradient of a graph with {nb} CircuitTorchWrapper branch(es) ({graph}, last gate {kind}) differs from the '
+                     f'pure-autograd re-implementation by {e_ag:.3e}', dict(info, grad=grads['custom'].tolist(), autograd=grads['autograd'].tolist()))
+        elif e_fd > 1e-5:
+            ctx.fail('graph-grad-vs-fd', f'gradient of graph {graph} (last gate {kind}) differs from finite differences by {e_fd:.3e}',
+                     dict(info, grad=grads['custom'].tolist(), finite_difference=fd.tolist()))
+        else:
+            ctx.probe_ok(('graph', graph, kind, seed))
+        ctx.count(f'graph-{graph}'); ctx.count(f'last-{kind}')
+
+
+def probe_aliasing_ops(ctx, rng):
+    """the other hand-written backward passes must leave grad_output, their inputs and their saved tensors untouched"""
+    import numqi, torch
+    for rep in range(4 if ctx.quick() else 24):
+        seed = int(rng.integers(1 << 30)); r2 = np.random.default_rng(seed)
+        # Knill-Laflamme op, output consumed twice
+        L = int(r2.choice([1, 2, 4])); m = int(r2.integers(1, 4))
+        info = dict(op='knill_laflamme_inner_product', seed=seed, L=L, m=m)
+        try:
+            def rand_factor():
+                k = int(r2.integers(1, min(2, m) + 1))
+                return ([int(x) for x in r2.permutation(m)[:k]], numqi.random.rand_haar_unitary(2 ** k, seed=int(r2.integers(1 << 30))))
+            op_list = [[rand_factor() for _ in range(int(r2.integers(1, 4)))] for _ in range(2)]
+            ops0 = [[(list(i), u.copy()) for i, u in seq] for seq in op_list]
+            qn = r2.normal(size=(L, 2 ** m)) + 1j * r2.normal(size=(L, 2 ** m))
+            q = torch.tensor(qn, requires_grad=True)
+            qq = q * 1.0
+            snaps = []
+            y = numqi.qec.knill_laflamme_inner_product(qq, op_list)
+            y.register_hook(lambda g: snaps.append((g, g.clone())))
+            ((y * y.conj()).real.sum() + y.real.sum() + (y.abs() ** 2).sum()).backward()
+            ok = all(torch.equal(g, c) for g, c in snaps)
+            ok_in = np.array_equal(q.detach().numpy(), qn) and all(np.array_equal(u, u0) and list(i) == i0 for seq, seq0 in zip(op_list, ops0) for (i, u), (i0, u0) in zip(seq, seq0))
+        except Exception as e:
+            ctx.fail('aliasing-raises', f'{type(e).__name__}: {e}', info); continue
+        if not ok:
+            ctx.fail(MUTATION_KEY + ':KnillLaflamme.backward', 'the Knill-Laflamme backward modified the grad_output tensor handed to it by autograd', info)
+        elif not ok_in:
+            ctx.fail(MUTATION_KEY + ':KnillLaflamme.inputs', 'the Knill-Laflamme op modified its input code / operator list', info)
+        else:
+            ctx.probe_ok(('alias-kl', seed))
+        # PSD square root / logm: grad_output, input and saved tensors
+        d = int(r2.integers(1, 5))
+        for name, fn in (('PSDMatrixSqrtm', lambda X: numqi._torch_op.PSDMatrixSqrtm.apply(X)),
+                         ('_PSDMatrixSqrtmRepeat', lambda X: numqi._torch_op._PSDMatrixSqrtmRepeat.apply(X, 2)),
+                         ('PSDMatrixLogm', lambda X: numqi._torch_op.get_PSDMatrixLogm(3, 4)(X))):
+            info = dict(op=name, seed=seed, dim=d)
+            try:
+                Bm = r2.normal(size=(d, d)) + 1j * r2.normal(size=(d, d))
+                A0 = Bm @ Bm.conj().T + 0.3 * np.eye(d)
+                X = torch.tensor(A0, requires_grad=True)
+                Xc = X * 1.0
+                snaps, saved = [], []
+                Y = fn(Xc)
+                node = Y.grad_fn
+                seen = set()
+                stack = [node]
+                while stack:            # saved tensors of every custom Function in the graph of Y
+                    nd = stack.pop()
+                    if nd is None or id(nd) in seen:
+                        continue
+                    seen.add(id(nd))
+                    if hasattr(nd, 'saved_tensors'):
+                        try:
+                            saved += [(t, t.clone()) for t in nd.saved_tensors]
+                        except Exception:
+                            pass
+                    stack += [f for f, _ in nd.next_functions]
+                Y.register_hook(lambda g: snaps.append((g, g.clone())))
+                C = torch.tensor(r2.normal(size=(d, d)) + 1j * r2.normal(size=(d, d)))
+                ((C * Y).real.sum() + (Y * Y.conj()).real.sum()).backward()
+                ok = all(torch.equal(g, c) for g, c in snaps)
+                ok_in = np.array_equal(X.detach().numpy(), A0) and all(torch.equal(t, c) for t, c in saved)
+            except Exception as e:
+                ctx.fail('aliasing-raises', f'{name}: {type(e).__name__}: {e}', info); continue
+            if not ok:
+                ctx.fail(MUTATION_KEY + ':' + name + '.backward', f'{name} backward modified the grad_output tensor handed to it by autograd', info)
+            elif not ok_in:
+                ctx.fail(MUTATION_KEY + ':' + name + '.saved', f'{name} backward modified its input or its saved tensors', info)
+            else:
+                ctx.probe_ok(('alias', name, seed))
+
+
 def probe(ctx):
     import numqi, torch
     rng = np.random.default_rng(ctx.np_seed + 5)
@@ -484,9 +838,12 @@ def probe(ctx):
                     wrapper.setP(a=ph)
                 q0 = torch.tensor(q0np)
                 psi = wrapper(q0) if kind == 'custom' else reimplement(circ, wrapper, q0, ph)
+                if kind == 'custom' and psi.requires_grad:
+                    psi.register_hook(lambda g: snaps1.append((g, g.clone())))
                 return loss_of(psi)
             x0 = np.concatenate([p.detach().numpy().reshape(-1) for p in plist])
             grads = {}
+            snaps1 = []
             for kind in ('custom', 'autograd'):
                 for p in plist:
                     p.grad = None
@@ -499,7 +856,9 @@ def probe(ctx):
             worst['circuit_fd'] = max(worst['circuit_fd'], e_fd); worst['circuit_autograd'] = max(worst['circuit_autograd'], e_ag)
         except Exception as e:
             ctx.fail('circuit-grad-raises', f'{type(e).__name__}: {e}', info); continue
-        if e_ag > 1e-9:
+        if any(not torch.equal(g_, c_) for g_, c_ in snaps1[:1]):
+            ctx.fail(MUTATION_KEY + ':_CircuitFunction.backward', '_CircuitFunction.backward modified the grad_output tensor handed to it by autograd', info)
+        elif e_ag > 1e-9:
             ctx.fail('circuit-grad-vs-autograd', f'CircuitTorchWrapper gradient differs from a pure-autograd re-implementation by {e_ag:.3e} (relative)',
                      dict(info, theta=x0.tolist(), grad=grads['custom'].tolist(), autograd=grads['autograd'].tolist()))
         elif e_fd > 1e-5:
@@ -507,6 +866,9 @@ def probe(ctx):
                      dict(info, theta=x0.tolist(), grad=grads['custom'].tolist(), finite_difference=fd.tolist()))
         else:
             ctx.probe_ok(('circuit', seed))
+    # (1b) several circuit branches in one graph, outputs consumed twice, every kind of last gate; aliasing of grad_output
+    probe_graphs(ctx, rng, worst)
+    probe_aliasing_ops(ctx, rng)
     # (2) Knill-Laflamme op and the VarQEC loss through the flat-parameter bridge
     for rep in range(2 if ctx.quick() else 8):
         seed = int(rng.integers(1 << 30))
